@@ -22,6 +22,7 @@ import (
 	"bufio"
 	"bytes"
 	"context"
+	"encoding/json"
 	"fmt"
 	"math"
 	"math/big"
@@ -34,6 +35,7 @@ import (
 	"strings"
 	"sync"
 	"sync/atomic"
+	"syscall"
 	"time"
 
 	"go.uber.org/zap/zapcore"
@@ -1073,10 +1075,14 @@ func runScenario(s scenario) (findings []finding, tagsOut []string, obs sysObs) 
 	unacked := map[int]bool{}
 	debris := "" // class of the earliest crash that left debris and was followed by ingestion
 	pendingDebris := ""
+	concurrent := false // two bulks were appended concurrently earlier in the history
 	check := func(res childResult, phase string) bool {
 		cls := debris
 		if cls == "" {
 			cls = pendingDebris // a crash left debris and nothing was ingested since
+		}
+		if cls == "" && concurrent {
+			cls = "concurrent-bulks"
 		}
 		if cls == "" {
 			cls = "no-debris"
@@ -1138,9 +1144,7 @@ func runScenario(s scenario) (findings []finding, tagsOut []string, obs sysObs) 
 		}
 		if r.par[0] > 0 {
 			tagsOut = append(tagsOut, "concurrent-bulks")
-			if debris == "" && pendingDebris == "" {
-				debris = "concurrent-bulks"
-			}
+			concurrent = true
 		}
 		res := runChild(dir, known(), r.ingest, crash, r.par)
 		for _, l := range res.lines {
@@ -1665,8 +1669,15 @@ func chanFwTrace(o vh.Opts, rng *vh.RNG) *vh.Channel {
 
 // ------------------------------------------------------------------ main
 
+// limitAddressSpace makes an absurd allocation fail at once instead of keeping the kernel busy mapping terabytes
+func limitAddressSpace() {
+	lim := syscall.Rlimit{Cur: 24 << 30, Max: 24 << 30}
+	_ = syscall.Setrlimit(syscall.RLIMIT_AS, &lim)
+}
+
 func main() {
 	if len(os.Args) > 1 && os.Args[1] == "child" {
+		limitAddressSpace()
 		childMain(os.Args[2:])
 		return
 	}
@@ -1674,7 +1685,6 @@ func main() {
 	logger.SetLevel(zapcore.FatalLevel)
 	conf.SkipFsync = true // component channels build their crash states from snapshots; the child processes keep fsync on
 	rep := vh.NewReport("C01", o)
-	rng := vh.NewRNG(o.Seed)
 
 	var replayOps []string
 	if o.Replay != "" {
@@ -1687,35 +1697,93 @@ func main() {
 		replayOps = ops
 	}
 	fix := detectFix()
-	rep.Note("start-up of the code under test: %s (model `restart %v`)", map[bool]string{true: "cuts incomplete tails (repaired)", false: "keeps incomplete tails"}[fix], fix)
-
-	if o.Replay == "" || hasPrefix(replayOps, "wp.run") || hasPrefix(replayOps, "replay") {
-		if o.Only == "" || o.Only == "replay" {
-			rep.AddChannel(chanReplay(o, rng.Fork()), o.Driver)
+	worker := os.Getenv("VERIF_C01_WORKER") == "1"
+	if worker {
+		limitAddressSpace()
+	}
+	if !worker {
+		rep.Note("start-up of the code under test: %s (model `restart %v`)", map[bool]string{true: "cuts incomplete tails (repaired)", false: "keeps incomplete tails"}[fix], fix)
+	}
+	// every random choice of a channel derives from the seed and the channel's name, whichever channels run
+	rngFor := func(name string) *vh.RNG {
+		h := int64(0)
+		for _, c := range name {
+			h = h*131 + int64(c)
 		}
-		if o.Only == "" || o.Only == "wp.run" {
-			rep.AddChannel(chanRun(o, rng.Fork(), fix), o.Driver)
-		}
-		if o.Only == "" || o.Only == "index" {
-			rep.AddChannel(chanIndex(o, rng.Fork(), fix, 1), o.Driver)
-		}
-		if o.Only == "" || o.Only == "index.k" {
-			rep.AddChannel(chanIndex(o, rng.Fork(), fix, 4), o.Driver)
+		return vh.NewRNG(o.Seed*1000003 + h)
+	}
+	comps := o.Replay == "" || hasPrefix(replayOps, "wp.run") || hasPrefix(replayOps, "replay")
+	inproc := []struct {
+		name string
+		on   bool
+		run  func()
+	}{
+		{"replay", comps, func() { rep.AddChannel(chanReplay(o, rngFor("replay")), o.Driver) }},
+		{"wp.run", comps, func() { rep.AddChannel(chanRun(o, rngFor("wp.run"), fix), o.Driver) }},
+		{"index", comps, func() { rep.AddChannel(chanIndex(o, rngFor("index"), fix, 1), o.Driver) }},
+		{"index.k", comps, func() { rep.AddChannel(chanIndex(o, rngFor("index.k"), fix, 4), o.Driver) }},
+		{"fw.trace", o.Replay == "", func() { rep.AddChannel(chanFwTrace(o, rngFor("fw.trace")), o.Driver) }},
+		{"fw.groupcommit", o.Replay == "" || hasPrefix(replayOps, "fw "), func() { rep.AddOracle(oracleGroupCommit(o, rngFor("fw.groupcommit"), rep)) }},
+	}
+	// The in-process channels call the code under test inside this binary. A changed tree can make that fatal for the
+	// process (e.g. an impossible allocation while parsing garbage), so each of them runs in a worker process of its
+	// own; a worker that dies is a broken channel, and the crash-restart oracle below still runs and locates the input.
+	for _, c := range inproc {
+		switch {
+		case o.Only == c.name || (worker && o.Only == ""):
+			c.run()
+		case o.Only == "" && c.on:
+			runWorker(c.name, o, rep)
 		}
 	}
-	if (o.Only == "" && o.Replay == "") || o.Only == "fw.trace" {
-		rep.AddChannel(chanFwTrace(o, rng.Fork()), o.Driver)
-	}
-	if (o.Only == "" && o.Replay == "") || o.Only == "fw.groupcommit" || hasPrefix(replayOps, "fw ") {
-		rep.AddOracle(oracleGroupCommit(o, rng.Fork(), rep))
-	}
-	if (o.Only == "" && (o.Replay == "" || hasPrefix(replayOps, "hist"))) || o.Only == "crash-restart" {
+	if (o.Only == "" && !worker && (o.Replay == "" || hasPrefix(replayOps, "hist"))) || o.Only == "crash-restart" {
 		conf.SkipFsync = false
-		or, ch := oracleCrashRestart(o, rng.Fork(), rep, filterPrefix(replayOps, "hist"), fix)
+		or, ch := oracleCrashRestart(o, rngFor("crash-restart"), rep, filterPrefix(replayOps, "hist"), fix)
 		rep.AddOracle(or)
 		rep.AddChannel(ch, o.Driver)
 	}
 	rep.Write(o.Out)
+}
+
+// runWorker executes one in-process channel in a child of this binary and merges its report
+func runWorker(name string, o vh.Opts, rep *vh.Report) {
+	self, err := os.Executable()
+	must(err)
+	tmp, err := os.CreateTemp("", "c01-worker-*.json")
+	must(err)
+	tmp.Close()
+	defer os.Remove(tmp.Name())
+	args := []string{"-tier", o.Tier, "-seed", strconv.FormatInt(o.Seed, 10), "-driver", o.Driver, "-out", tmp.Name(), "-only", name}
+	if o.Replay != "" {
+		args = append(args, "-replay", o.Replay)
+	}
+	cmd := exec.Command(self, args...)
+	cmd.Env = append(os.Environ(), "VERIF_C01_WORKER=1")
+	var se bytes.Buffer
+	cmd.Stderr = &se
+	runErr := cmd.Run()
+	var sub vh.Report
+	if b, err := os.ReadFile(tmp.Name()); runErr == nil && err == nil && json.Unmarshal(b, &sub) == nil {
+		rep.Channels = append(rep.Channels, sub.Channels...)
+		rep.Oracles = append(rep.Oracles, sub.Oracles...)
+		for _, v := range sub.Violations {
+			rep.Violate(v)
+		}
+		rep.Notes = append(rep.Notes, sub.Notes...)
+		return
+	}
+	why := ""
+	for _, l := range strings.Split(se.String(), "\n") {
+		if strings.HasPrefix(l, "fatal error:") || strings.HasPrefix(l, "panic:") {
+			why = l
+			break
+		}
+	}
+	if why == "" {
+		why = lastLine(se.String())
+	}
+	rep.Channels = append(rep.Channels, &vh.Channel{Name: name, Rule: "in-process channel (worker process)", Distribution: map[string]int{},
+		Error: fmt.Sprintf("the code under test killed the worker process of this channel (%v): %s", runErr, why)})
 }
 
 func hasPrefix(ops []string, p string) bool { return len(filterPrefix(ops, p)) > 0 }
